@@ -965,24 +965,25 @@ structure HInv (env : Env) (fuel : Nat) (x : St × RSt) : Prop where
   pending : Pending env fuel x.1 x.2.graph
   live : x.2.dead = false
   idle : x.2.toReload = []
+  local_ : x.2.static_ = false
 
 theorem HInv.init (env : Env) (fuel : Nat) : HInv env fuel ({}, {}) :=
-  ⟨Pending.of_settled rfl (fun _ _ _ h => by cases h), rfl, rfl⟩
+  ⟨Pending.of_settled rfl (fun _ _ _ h => by cases h), rfl, rfl, rfl⟩
 
 /-- a `hot_reload` step: afterwards the channel is drained and everything is settled -/
 theorem HInv.step_hotReload {env : Env} (hS : env.Steady) {fuel : Nat} {x : St × RSt} (h : HInv env fuel x) :
     Settled env fuel (hstep fuel (env, .hotReload) x).1 (hstep fuel (env, .hotReload) x).2.graph ∧
     (hstep fuel (env, .hotReload) x).1.out = [] ∧ HInv env fuel (hstep fuel (env, .hotReload) x) := by
   obtain ⟨s, r⟩ := x
-  obtain ⟨e1, e2, e3, e4, _⟩ := hotReload_idle env fuel s r h.live h.idle
+  obtain ⟨e1, e2, e3, e4, e5⟩ := hotReload_idle env fuel s r h.live h.idle
   have hset : Settled env fuel (hotReload env fuel s r).1 (hotReload env fuel s r).2.graph := by
     rw [e1, e2]; exact h.pending.drain hS
   have hout : (hotReload env fuel s r).1.out = [] := by rw [e1]; rfl
-  exact ⟨hset, hout, ⟨Pending.of_settled hout hset, e3, e4⟩⟩
+  exact ⟨hset, hout, ⟨Pending.of_settled hout hset, e3, e4, e5.trans h.local_⟩⟩
 
 theorem HInv.step_load {env : Env} (hS : env.Steady) {fuel : Nat} {s : St} {r : RSt} (h : HInv env fuel (s, r))
     {key : Key} (hok : LoadOK env fuel s r key) : HInv env fuel (hstep fuel (env, .api (.load key)) (s, r)) :=
-  ⟨load_pending hS key h.pending hok, h.live, h.idle⟩
+  ⟨load_pending hS key h.pending hok, h.live, h.idle, h.local_⟩
 
 theorem HInv.step_insert {env : Env} (hS : env.Steady) {fuel : Nat} {s : St} {r : RSt} (h : HInv env fuel (s, r))
     {key : Key} {v : Val}
@@ -990,7 +991,7 @@ theorem HInv.step_insert {env : Env} (hS : env.Steady) {fuel : Nat} {s : St} {r 
     (hfillM : NoPendingKeyFilled s (step env fuel s (.getOrInsert key v)).1) :
     HInv env fuel (hstep fuel (env, .api (.getOrInsert key v)) (s, r)) := by
   obtain ⟨f1, f2, f3⟩ := step_getOrInsert_facts env fuel s key v
-  exact ⟨h.pending.extend_static hS f1 f2 f3 hfill hfillM, h.live, h.idle⟩
+  exact ⟨h.pending.extend_static hS f1 f2 f3 hfill hfillM, h.live, h.idle, h.local_⟩
 
 /-- The histories of statement 2: `load`s and `hot_reload`s under one environment, every load
 satisfying the named hypotheses `LoadOK` in the state it starts from. -/
